@@ -22,6 +22,7 @@ RULE = ('random core files (all numeric dtypes + char, scalar variables, '
         'in-domain file with >= 1 variable; distinct = digest of the spec.')
 RULE += (" Variables are also created with sized type strings ('f8', 'i2', ...) and through values= with a missing_value attribute; a second save generation in another flavour; files with a second unlimited dimension (NETCDF4).")
 RULE += (" Every ninth source is the object one of the library's READERS returns for a valid image written by the independent codecs (CAMx memory-mapped and record readers, bpch1, bpch2, arlpackedbit, ffi1001) - conversion to netCDF is what the readers are mostly used for; byte order and bytes-vs-str of character attributes are encodings of the container, attribute names the HDF5 layer reserves (NAME, CLASS, ...) are not representable in the netCDF-4 flavours.")
+RULE += (' Every eleventh source is a netCDF file as other tools write it, made here with netCDF4 directly: packed variables (int16 with scale_factor/add_offset, with and without _FillValue, with and without missing cells) next to a plain coordinate.')
 ASSUMPTIONS = [
     'classic-model flavours cannot hold int64/unsigned: such files are '
     'outside the domain there (must raise or round-trip)',
@@ -48,6 +49,26 @@ def ncases(tier):
 
 def gen(rng, idx, tier, seed):
     fmt = FORMATS[idx % 4]
+    if idx % 11 == 10:
+        # a netCDF file as other tools write it (archive conventions): packed
+        # variables (short integers with scale_factor / add_offset, with and
+        # without missing cells), written here with netCDF4 directly
+        n = int(rng.integers(2, 7))
+        m = int(rng.integers(1, 4))
+        vs = []
+        for i in range(int(rng.integers(1, 4))):
+            vs.append({'name': 'p%d' % i,
+                       'dims': ['x'] if rng.random() < 0.5 else ['t', 'x'],
+                       'scale': float(rng.choice([0.1, 0.5, 0.01, 2.0])),
+                       'offset': float(rng.choice([0.0, 5.0, 273.15, -10.0])),
+                       'fill': bool(rng.random() < 0.7),
+                       'mask': str(rng.choice(['none', 'some', 'some'])),
+                       'seed': int(rng.integers(1 << 30))})
+        return {'file': {'nc4src': {'n': n, 'm': m, 'vars': vs,
+                                    'unlimited': bool(rng.random() < 0.5)}},
+                'format': fmt, 'complevel': 0,
+                'via': str(rng.choice(['save', 'pncwrite', 'pncgen'])),
+                'auto': bool(rng.random() < 0.5), 'format2': None}
     if idx % 9 == 8:
         fs = {'reader': readerfiles.gen_spec(rng, idx=idx // 9)}
     elif idx % 7 == 6:
@@ -111,7 +132,44 @@ def in_domain(spec, snap):
     return why
 
 
+def write_nc4src(ns, path):
+    import netCDF4
+    ds = netCDF4.Dataset(path, 'w', format='NETCDF4_CLASSIC')
+    ds.createDimension('t', None if ns['unlimited'] else ns['m'])
+    ds.createDimension('x', ns['n'])
+    ds.title = 'archive-style file'
+    xv = ds.createVariable('x', 'f8', ('x',))
+    xv[:] = np.arange(ns['n']) * 1.5
+    for v in ns['vars']:
+        rng = np.random.default_rng([v['seed'], 3])
+        shape = tuple({'t': ns['m'], 'x': ns['n']}[d] for d in v['dims'])
+        kw = {'fill_value': -32767} if v['fill'] else {}
+        nv = ds.createVariable(v['name'], 'i2', tuple(v['dims']), **kw)
+        nv.scale_factor = np.float32(v['scale'])
+        nv.add_offset = np.float32(v['offset'])
+        nv.units = 'K'
+        packed = rng.integers(-2000, 2000, shape)
+        vals = packed * np.float64(np.float32(v['scale'])) + np.float64(
+            np.float32(v['offset']))
+        if v['mask'] == 'some':
+            mk = rng.random(shape) < 0.3
+            if not mk.any():
+                mk.reshape(-1)[0] = True
+            vals = np.ma.array(vals, mask=mk)
+        nv[...] = vals
+    ds.close()
+
+
 def run(spec, res):
+    ns = spec['file'].get('nc4src')
+    if ns:
+        import PseudoNetCDF as pnc
+        with harness.casedir() as d0, harness.handles() as h0:
+            p0 = os.path.join(d0, 'archive.nc')
+            write_nc4src(ns, p0)
+            f = h0.keep(pnc.pncopen(p0, format='netcdf'))
+            res.facet('source:netcdf4-written-packed')
+            return run_file(spec, res, f)
     rdr = spec['file'].get('reader')
     if rdr:
         # the file saved is what a library reader returns for a valid image
